@@ -27,6 +27,10 @@ type Config struct {
 	PanicIsViolation bool
 	BudgetIsViolation bool
 	DeadlockIsViolation bool
+	// Stubs: calls of the named functions (funcKey, e.g. "(github.com/x/y.T).M") run the given harness
+	// function instead, with the same arguments - an environment model written in Go, executed
+	// symbolically; natively the real function runs
+	Stubs map[string]*ssa.Function
 }
 
 type Draw struct {
